@@ -201,6 +201,11 @@ class Expander:
                 raise LostAnchor('%s: field %s of %s not found' % (rel, f, name))
             self.rules_used.add('R9')
         text = re.sub(r'\bpub\(super\)|\bpub\(crate\)', 'pub', text)
+        # visibility is irrelevant inside the single-file unit: make the item and its named fields public
+        if not re.match(r'\s*pub\b', text):
+            text = 'pub ' + text.lstrip()
+        if kind == 'struct':
+            text = re.sub(r'(?m)^(\s+)(?!pub\b)(\w+\s*:)', r'\1pub \2', text)
         return text
 
     # ------------------------------------------------------------------------------------
